@@ -15,9 +15,9 @@ SPEC = {
         "Go harness harness/cmd/c13 (generator, oracle, Coq term printer) and the add-only verif-tagged wrappers sqlgen/verif_codec.go, livesql/verif_codec.go",
     ],
     "assumptions": [
-        "excluded value classes (counted in the histogram): NaN, -0 and infinities; uint64 above 2^63-1 (Valuer wraps it to a negative int64, which an unsigned column cannot hold); time.Time values that are not UTC, carry a monotonic reading, or have a precision the column / the binlog decoder drops; FLOAT columns read through the text protocol (MySQL prints 6 significant digits); MEDIUMINT UNSIGNED; binary-tagged fields in VARBINARY columns (the binlog decoder returns a string, which the binary branch of Scanner.Scan rejects: reading only)",
-        "filters in the protobuf theorem are typed: each value has the column's Go base type (pointer or not), and is not a pointer to a zero value on an implicitnull column (open known finding)",
-        "custom column types are the three of the harness catalogue (Valuer/Scanner, Marshal/Unmarshal, TextMarshaler) with prefix codecs; json-tagged columns are integers and booleans",
+        "excluded value classes, each a decidable predicate of the theorems (fval_ok / col_matches / repr = None) and counted in the histogram: NaN, -0 and infinities; uint64 above 2^63-1 (Valuer wraps it to a negative int64, which an unsigned column cannot hold); time.Time values that are not UTC, carry a monotonic reading, or have a precision the column / the binlog decoder drops; a float32 that MySQL's 6-digit text rendering of a FLOAT column does not determine (exact6); MEDIUMINT UNSIGNED through the binlog decoder (refuted: 8388608 comes back as 4286578688); a non-nil *[]byte pointing at a nil slice and a non-nil invalid *sql.NullString (refuted); binary-tagged Marshal types in VARBINARY columns on the binlog path (the decoder returns a string, which the binary branch of Scanner.Scan rejects: reading only)",
+        "filters in the protobuf theorem are typed: each value has the column's Go base type (pointer or not), and is not a pointer to a zero value on an implicitnull column (open known finding; the json analogue, a pointer to a nil slice / map on a json column, is the second open finding)",
+        "custom column types are those of the harness catalogue: Valuer/Scanner struct, [16]byte uuid (testfixtures.CustomType), sql.NullString, Marshal/Unmarshal (binary tag), TextMarshaler (string tag); json-tagged columns in the model are integers and booleans, other json payloads (string, float, slice, map, struct, pointer) are run through the oracle only (table jsonwide)",
     ],
     "manifest": {
         "text": "Coq theorems (Props/C13.v) over an executable model of Valuer/Scanner, UnbuildStruct/BuildStruct/parseBinlogRow, the row tester and the filter protobuf codec: decode(repr(encode x)) = x for every column kind, pointer/NULL/tag combination and every representation MySQL or the binlog decoder hands back; tester reflexivity; protobuf round trip = error or same verdict on every row. The model is run against the Go code on generated struct values, re-encodings and filters on every run (correspondence), and the three statements are evaluated directly on the implementation's outputs (oracle).",
